@@ -233,6 +233,12 @@ pub fn split_sessions() -> Vec<Vec<String>> {
         "(cdr '(1 . 2))",
         "((lambda (a . r) (list a r)) 1 2 3)",
         "(car (cdr '(1 2 . (3 4))))",
+        // forms that are rejected while being read / expanded: the message is the same however split
+        "(import (scheme #t))",
+        "(define-syntax bad (syntax-rules 5 ((bad) 1)))",
+        "(define-syntax bad2 (syntax-rules () ((bad2 a) (a ... ...))))",
+        "(lambda (a 5) a)",
+        "(let ((a 1) 2) a)",
     ];
     let mut out = vec![];
     for f in forms {
@@ -417,7 +423,7 @@ pub fn run(ctx: &Ctx) -> i32 {
             tier: ctx.tier_name(),
             seed: ctx.seed,
             exhaustive: true,
-            rule: format!("(1) the REPL's completeness test (hook verif_check_bracket_closed) on every string of length <= {} over {:?} against the reference predicate; (2) every sequence of <= {} input lines from {} fragments (thorough: also every 4-line sequence over the first 18) (definitions, values, unspecified values, failing forms, two forms on one line, halves of forms, a comment / string / character / |symbol| containing a parenthesis, a lone closing parenthesis) plus every two-line split of seven forms at every token gap, fed to the built binary over a pipe; transcript (stdout and stderr lines) compared with the reference REPL; transitions = input lines", maxlen, ALPHABET, max_lines, FRAGMENTS.len()),
+            rule: format!("(1) the REPL's completeness test (hook verif_check_bracket_closed) on every string of length <= {} over {:?} against the reference predicate; (2) every sequence of <= {} input lines from {} fragments (thorough: also every 4-line sequence over the first 18) (definitions, values, unspecified values, failing forms, two forms on one line, halves of forms, a comment / string / character / |symbol| containing a parenthesis, a lone closing parenthesis) plus every two-line split of twelve forms at every token gap, fed to the built binary over a pipe; transcript (stdout and stderr lines) compared with the reference REPL; transitions = input lines", maxlen, ALPHABET, max_lines, FRAGMENTS.len()),
             bounds: json!({"predicate_strings": n_pred, "max_len": maxlen, "sessions": total, "max_lines": max_lines}),
             assumptions: vec!["the reference REPL evaluates submissions through the library interface on one interpreter (the property's own differential); terminal mode (line editing, history, Ctrl-C) is not driven".into()],
             wall_s: ctx.elapsed(),
